@@ -26,6 +26,7 @@ type WorkResult struct {
 	Stats      *RunStats       `json:"stats,omitempty"`
 	Violations []Violation     `json:"violations,omitempty"` // of the checked property
 	Foreign    map[string]int  `json:"foreign,omitempty"`    // violations of other properties seen in shared runs
+	ForeignEx  map[string]string `json:"foreign_ex,omitempty"` // one example per foreign property (diagnostics only)
 	Replay     string          `json:"replay,omitempty"`
 	Sample     json.RawMessage `json:"sample,omitempty"`
 	Extra      map[string]int  `json:"extra,omitempty"`
@@ -102,6 +103,7 @@ type CheckSpec struct {
 	QuickBudget, ThoroughBudget time.Duration
 	Worker     func(w *WorkerCtx) // runs in the worker process
 	Workers    int                // 0 = all cores
+	VaryCPUs   bool               // run workers under different CPU affinities / GOMAXPROCS (F11)
 }
 
 type WorkerCtx struct {
@@ -150,7 +152,12 @@ func init() {
 	registerPlanCheck("C33", "exploration", planRule("all"), 50*time.Second, 12*time.Minute, realStub)
 	registerPlanCheck("C34", "translation_validation", planRule("all"), 50*time.Second, 12*time.Minute, realStub)
 	registerPlanCheck("C31", "exploration", planRule("all"), 50*time.Second, 12*time.Minute, realStub)
-	registerPlanCheck("C28", "exploration", planRule("all (host faults F1/F2 in 60 % of the shadow executions)"), 50*time.Second, 12*time.Minute, realStub)
+	for _, p := range []string{"C33", "C31", "C34", "C01"} {
+		checks[p].VaryCPUs = true
+	}
+	checks["C28"] = &CheckSpec{Prop: "C28", Level: "fault_enumeration", QuickBudget: 40 * time.Second, ThoroughBudget: 12 * time.Minute, Assumptions: []string{realStub},
+		Rule:   "corpus of executions reaching every runtime.Interface method Cadence calls (checked: a required method never called is a harness error); for every corpus item x engine (interp, vm; thorough: +vm with peephole) one clean run, then a re-execution from the same ledger for EVERY callback index with an injected error and an injected panic (thorough: + string panic, sticky error, fault pairs inside/after tryUpdate); an evaluation is one (item, engine) pair or one seeded plan, non-trivial if at least one fault fired; afterwards seeded plans with host faults in histories for the rest of the budget",
+		Worker: c28Worker}
 }
 
 // familyOf: the op family whose presence makes a plan non-trivial for the property
@@ -205,6 +212,12 @@ func planWorker(w *WorkerCtx) {
 				own = append(own, v)
 			} else {
 				res.Foreign[v.Property]++
+				if res.ForeignEx == nil {
+					res.ForeignEx = map[string]string{}
+				}
+				if res.ForeignEx[v.Property] == "" {
+					res.ForeignEx[v.Property] = fmt.Sprintf("plan_seed=%d %s", seed, clip(v.String(), 600))
+				}
 			}
 		}
 		if k == 0 {
@@ -357,8 +370,23 @@ func cmdCheck(args []string) int {
 		go func(i int) {
 			defer wg.Done()
 			ws := uint64(seed)*7919 + uint64(i) + 1
-			cmd := exec.Command(exe, "worker", "-prop", *prop, "-tier", *tier, "-seed", fmt.Sprint(ws), "-index", fmt.Sprint(i), "-budget", b.String())
-			cmd.Env = append(os.Environ(), "VERIF_DIR="+verifDir())
+			wargs := []string{exe, "worker", "-prop", *prop, "-tier", *tier, "-seed", fmt.Sprint(ws), "-index", fmt.Sprint(i), "-budget", b.String()}
+			env := append(os.Environ(), "VERIF_DIR="+verifDir())
+			// F11, process-level variation: some workers run pinned to 1 or 4 CPUs (runtime.NumCPU follows the affinity mask)
+			// and with GOMAXPROCS 1/4; the workload of a worker does not depend on it, only the code under test can.
+			if spec.VaryCPUs {
+				switch i % 4 {
+				case 0:
+					wargs = append([]string{"taskset", "-c", fmt.Sprint(i % numCPU())}, wargs...)
+				case 1:
+					lo := (i / 4 * 4) % numCPU()
+					wargs = append([]string{"taskset", "-c", fmt.Sprintf("%d-%d", lo, min(lo+3, numCPU()-1))}, wargs...)
+				case 2:
+					env = append(env, "GOMAXPROCS=2")
+				}
+			}
+			cmd := exec.Command(wargs[0], wargs[1:]...)
+			cmd.Env = env
 			stdout, _ := cmd.StdoutPipe()
 			var stderr strings.Builder
 			cmd.Stderr = &stderr
@@ -414,6 +442,7 @@ func aggregate(spec *CheckSpec, tier string, seed int64, results []WorkResult, w
 	shapes := map[string]bool{}
 	ntShapes := map[string]bool{}
 	foreign := map[string]int{}
+	foreignEx := map[string]string{}
 	extra := map[string]int{}
 	var samples []json.RawMessage
 	evals := 0
@@ -437,6 +466,11 @@ func aggregate(spec *CheckSpec, tier string, seed int64, results []WorkResult, w
 		}
 		for k, v := range r.Foreign {
 			foreign[k] += v
+		}
+		for k, v := range r.ForeignEx {
+			if foreignEx[k] == "" {
+				foreignEx[k] = v
+			}
 		}
 		for k, v := range r.Extra {
 			if strings.HasPrefix(k, "max_") {
@@ -485,6 +519,7 @@ func aggregate(spec *CheckSpec, tier string, seed int64, results []WorkResult, w
 		"evictions":           total.Evictions,
 		"noise_runs":          total.NoiseRuns,
 		"sim_blocks":          total.SimBlocks,
+		"plans_by_cpu_config": total.NumCPU,
 		"health_checks":       total.HealthChecks,
 		"readbacks":           total.Readbacks,
 		"host_calls":          total.HostCalls,
@@ -495,6 +530,7 @@ func aggregate(spec *CheckSpec, tier string, seed int64, results []WorkResult, w
 		"op_kinds":            total.OpKinds,
 		"predicted_failure_kinds": total.FailKinds,
 		"foreign_violations":  foreign,
+		"foreign_violation_examples": foreignEx,
 		"known_findings_hit":  knownHits,
 		"extra":               extra,
 		"runs_per_hour":       int(float64(evals) / wall * 3600),
